@@ -20,7 +20,8 @@ fn values(t: Comp) -> (Tree, Tree) {
     match t {
         Comp::B => (Tree::B(true), Tree::B(false)),
         Comp::I => (Tree::I(1), Tree::I(2)),
-        Comp::F => (Tree::F(1.5), Tree::F(f32::NAN)),
+        // equal to three decimals (printed alike), different values
+        Comp::F => (Tree::F(1.0001), Tree::F(1.0004)),
         Comp::BV => (Tree::BV((0..40).map(|k| k % 3 == 0).collect()), Tree::BV(vec![])),
         Comp::IV => (Tree::IV((0..40).collect()), Tree::IV(vec![])),
         Comp::FV => (Tree::FV((0..40).map(|k| k as f32 + 0.5).collect()), Tree::FV(vec![])),
@@ -51,6 +52,9 @@ fn alphabet(prefix: &str, t: Comp) -> Vec<Act> {
             a.push(Act::Tok(Tree::L(vec![Tree::ins("CODE.QUOTE"), Tree::I(7)])));
             a.push(Act::Tok(Tree::L(vec![Tree::ins("CODE.QUOTE"), Tree::L(vec![Tree::I(8), Tree::name("Y")])])));
             a.push(Act::Tok(Tree::L(vec![Tree::ins("CODE.QUOTE"), big_body()])));
+            // two bodies that print alike ({:.3}) but differ
+            a.push(Act::Tok(Tree::L(vec![Tree::ins("CODE.QUOTE"), Tree::L(vec![Tree::F(1.0001), Tree::name("Y")])])));
+            a.push(Act::Tok(Tree::L(vec![Tree::ins("CODE.QUOTE"), Tree::L(vec![Tree::F(1.0004), Tree::name("Y")])])));
         }
         Comp::E => {
             // EXEC.DEFINE takes the next item on EXEC: supply it together with the instruction
@@ -58,11 +62,16 @@ fn alphabet(prefix: &str, t: Comp) -> Vec<Act> {
             a.push(Act::Tok(Tree::L(vec![Tree::ins("EXEC.DEFINE"), Tree::I(7)])));
             a.push(Act::Tok(Tree::L(vec![Tree::ins("EXEC.DEFINE"), Tree::L(vec![Tree::I(8), Tree::name("Y")])])));
             a.push(Act::Tok(Tree::L(vec![Tree::ins("EXEC.DEFINE"), big_body()])));
+            a.push(Act::Tok(Tree::L(vec![Tree::ins("EXEC.DEFINE"), Tree::F(1.0001)])));
+            a.push(Act::Tok(Tree::L(vec![Tree::ins("EXEC.DEFINE"), Tree::F(1.0004)])));
         }
         _ => {
             let (v1, v2) = values(t);
             a.push(Act::Tok(v1));
             a.push(Act::Tok(v2));
+            if t == Comp::F {
+                a.push(Act::Tok(Tree::F(f32::NAN)));
+            }
         }
     }
     a
